@@ -15,7 +15,9 @@ RULE = ("random lattices (all-2 ranks 1-7, rank 8 all-2 = matmul path, runs of e
         "dimension; clip_inputs on/off; via the Lattice layer or the lattice_lib function) with dyadic kernels "
         "(random, monotone along a subset of dimensions, Edgeworth-feasible for a pair) evaluated on points "
         "drawn interior / on cell faces / on vertices / with tied fractional parts / on the outermost edge / on "
-        "axis-parallel edges / outside the range (clip on only), plus points moved along one dimension; the Coq "
+        "axis-parallel edges / outside the range (clip on only), plus points moved along one dimension; ~10% of the "
+        "cases (a share of the layer route, class suffix _f32) build the layer in float32 - the layers' DEFAULT dtype "
+        "- with the same dyadic kernels and points (exact in float32) and are compared with tolerance 1e-5; the Coq "
         "model evaluates the same points. Non-trivial = the case has a point that is not a vertex; distinct = "
         "distinct (config, kernel, points).")
 TRUSTED = ["model: Model/LatticeInterp.v + Model/Interp1D.v, hand-written from lattice_lib.py. Hypercube: "
@@ -26,18 +28,35 @@ TRUSTED = ["model: Model/LatticeInterp.v + Model/Interp1D.v, hand-written from l
            "differences, cumsum of strides, gather incl. the indices*units+u arithmetic for units > 1. "
            "Lattice.call dispatch. The bucketing of equal consecutive sizes, tf.split/unstack/reshape and "
            "matmul-vs-multiply are represented by their index-level meaning (per-dimension weights)",
-           "tie: Lattice layer built in float64 with assigned kernel, and direct lattice_lib calls, outputs "
-           "compared in Coq with relative tolerance 1e-9 (FUNCTIONAL: a disagreement is a failing input)"]
+           "tie: Lattice layer built in float64 (or float32) with assigned kernel, and direct lattice_lib calls, "
+           "outputs compared in Coq with relative tolerance 1e-9 (float32 layers: 1e-5, carried by the case) "
+           "(FUNCTIONAL: a disagreement is a failing input)"]
 LIMITS = ["unclipped out-of-range inputs are not generated (the property does not speak about them; the "
           "simplex gather would index outside the kernel there); a mutation that makes the layer clip when "
           "clip_inputs is off is therefore invisible",
-          "float rounding (and the cast to int32 of huge or non-finite inputs) is outside the model",
+          "float rounding (and the cast to int32 of huge or non-finite inputs) is outside the model (tolerance 1e-9 "
+          "in float64, 1e-5 * max(1, |v|) in float32, in the Coq comparison and in the predicates)",
           "input shape validation errors and rank-0 lattices are not modelled (C16)",
           "lattices are kept to <= 256 vertices, so rank >= 9 (a second matmul step) is not exercised",
           "simplex continuity across cell faces is proved one face at a time (C02_simplex_continuous); crossing "
           "several faces at once is the composition of such steps and is not stated as one theorem"]
 
 TOL = 1e-9
+TOL32 = 1e-5
+
+
+def fine(rng, v):
+  """float32 cases only: moves a value by a few 2^-12 (still exact in float32, but not in float16 / bfloat16: a lossy
+  cast on the float32 path is invisible on multiples of 1/8)."""
+  return v + rng.choice([0, 0, 1, -1, 3, -5]) * 2.0 ** -12
+
+
+def is_f32(d):
+  return d.get("dtype") == "float32"
+
+
+def tol_of(d):
+  return TOL32 if is_f32(d) else TOL
 
 
 def _prod(xs):
@@ -209,9 +228,14 @@ def gen_descs(ctx):
     if extra_batch and len(pts) % 2 == 1:
       pts.append([_gen_point(rng, sizes, clip, "interior") for _ in range(units)])
       pcls.append("interior")
-    out.append(dict(sclass=sclass, sizes=sizes, units=units, simplex=simplex, tensor=tensor, clip=clip, via=via,
-                    kclass=kclass, kinfo=kinfo, K=K, pts=pts, pcls=pcls, pairs=pairs, quads=quads,
-                    extra_batch=extra_batch))
+    d = dict(sclass=sclass, sizes=sizes, units=units, simplex=simplex, tensor=tensor, clip=clip, via=via,
+             kclass=kclass, kinfo=kinfo, K=K, pts=pts, pcls=pcls, pairs=pairs, quads=quads,
+             extra_batch=extra_batch)
+    if via == "layer" and rng.random() < 0.15:
+      d["dtype"] = "float32"   # kernel and points are multiples of 1/8 (exact in float32)
+      if kclass == "random":
+        d["K"] = [[fine(rng, v) for v in row] for row in K]
+    out.append(d)
   return out
 
 
@@ -219,7 +243,8 @@ def _run_impl(tf, tfl, d, simplex, via):
   """Runs the implementation on all points of desc d. Returns outputs (npts, units)."""
   sizes, units = list(d["sizes"]), d["units"]
   rank = len(sizes)
-  x = np.array(d["pts"], dtype=np.float64)  # (npts, units, rank)
+  dt = np.float32 if is_f32(d) else np.float64
+  x = np.array(d["pts"], dtype=dt)  # (npts, units, rank)
   npts = x.shape[0]
   if units == 1:
     x = x[:, 0, :]
@@ -229,17 +254,21 @@ def _run_impl(tf, tfl, d, simplex, via):
     inp = tf.constant(x)
   else:
     inp = [tf.constant(x[..., i:i + 1]) for i in range(rank)]
-  K = np.array(d["K"], dtype=np.float64)
+  K = np.array(d["K"], dtype=dt)
   if via == "layer":
     layer = tfl.layers.Lattice(lattice_sizes=sizes, units=units,
                                interpolation="simplex" if simplex else "hypercube",
-                               clip_inputs=d["clip"], dtype="float64")
+                               clip_inputs=d["clip"], dtype=np.dtype(dt).name)
     shape = (None,) * (2 if d["extra_batch"] else 1) + ((units,) if units > 1 else ()) + (rank,)
     if not d["tensor"]:
       shape = [shape[:-1] + (1,)] * rank
     layer.build(shape)
     layer.kernel.assign(K)
-    y = layer(inp).numpy()
+    yt = layer(inp)
+    if layer.kernel.dtype.base_dtype.name != np.dtype(dt).name or yt.dtype.name != np.dtype(dt).name:
+      raise TypeError("layer built with dtype=%s has a %s kernel and returns %s" % (
+          np.dtype(dt).name, layer.kernel.dtype.base_dtype.name, yt.dtype.name))
+    y = yt.numpy()
   else:
     fn = (tfl.lattice_lib.evaluate_with_simplex_interpolation if simplex
           else tfl.lattice_lib.evaluate_with_hypercube_interpolation)
@@ -250,6 +279,7 @@ def _run_impl(tf, tfl, d, simplex, via):
 def _predicate(d, outs, other):
   """Property clauses evaluated on the implementation's outputs."""
   sizes, units = d["sizes"], d["units"]
+  TOL = tol_of(d)   # pylint: disable=invalid-name,redefined-outer-name
   K = np.array(d["K"], dtype=np.float64)
   strides = [_prod(sizes[i + 1:]) for i in range(len(sizes))]
   for u in range(units):
@@ -278,7 +308,7 @@ def _predicate(d, outs, other):
       for u in range(units):
         lo_eff = outs[b][u] - outs[a][u]
         hi_eff = outs[e][u] - outs[c][u]
-        if hi_eff < lo_eff - 1e-8:
+        if hi_eff < lo_eff - (1e-8 if not is_f32(d) else 4 * TOL * max(1.0, float(np.abs(K[:, u]).max()))):
           return ("Edgeworth-feasible kernel of unit %d (main %d, conditional %d) but the main effect drops from "
                   "%r to %r as the conditional input grows (%r -> %r)" % (
                       u, d["kinfo"]["edge"][0], d["kinfo"]["edge"][1], lo_eff, hi_eff, d["pts"][a][u], d["pts"][c][u]))
@@ -289,9 +319,9 @@ def eval_cases(ctx, descs):
   tf, tfl = tfimpl.tfl()
   cases = []
   for d in descs:
-    klass = "%s_%s_%s_%s_%s" % (d["sclass"], "simplex" if d["simplex"] else "hyper",
-                                "tensor" if d["tensor"] else "list", "u1" if d["units"] == 1 else "uN",
-                                "clip" if d["clip"] else "noclip")
+    klass = "%s_%s_%s_%s_%s%s" % (d["sclass"], "simplex" if d["simplex"] else "hyper",
+                                  "tensor" if d["tensor"] else "list", "u1" if d["units"] == 1 else "uN",
+                                  "clip" if d["clip"] else "noclip", "_f32" if is_f32(d) else "")
     try:
       y = _run_impl(tf, tfl, d, d["simplex"], d["via"])
       # the other scheme, through the lattice_lib function, for the agreement clause
@@ -303,9 +333,9 @@ def eval_cases(ctx, descs):
     outs = [[float(v) for v in row] for row in y]
     other = [[float(v) for v in row] for row in yo]
     fail = _predicate(d, outs, other)
-    coq = "mk %s %s %s %s %s %s %s %s" % (
+    coq = "mk %s %s %s %s %s %s %s %s %s" % (
         cbool(d["simplex"]), cbool(d["tensor"]), cbool(d["clip"]), cnat(d["units"]), cnatl(d["sizes"]),
-        cqm(d["K"]), clist([cqm(p) for p in d["pts"]]), cqm(outs))
+        cqm(d["K"]), clist([cqm(p) for p in d["pts"]]), cqm(outs), "tol32" if is_f32(d) else "tol")
     nonvertex = any(v != int(v) for p in d["pts"] for r in p for v in r)
     cases.append(Case(d, coq=coq, pred_fail=fail, nontrivial=nonvertex, klass=klass,
                       info={"impl_outputs": outs, "other_scheme_outputs": other}))
